@@ -73,6 +73,10 @@ func C14(ctx *core.Ctx) int {
 			progs = append(progs, p)
 		}
 	}
+	// the match / checksum shapes of C05 / C06 (key spellings, shared algorithm names: what a generator may respell
+	// or cache in the shared model)
+	progs = append(progs, matchPrograms()...)
+	progs = append(progs, checksumPrograms()...)
 	p1 := dsl.P1()
 	for i, p := range p1 {
 		if ctx.Thorough() || i%6 == 0 || strings.Contains(p.Name, "match") || strings.Contains(p.Name, "lenof") {
